@@ -3896,7 +3896,9 @@ func (c *Compiler) getWasmGlobalValue(index wasm.Index, forceLoad bool) ssa.Valu
 	opaqueOffset := c.offset.GlobalInstanceOffset(index)
 
 	builder := c.ssaBuilder
-	if !forceLoad {
+	// Imported globals may alias each other (one global imported under two indexes), so a value
+	// seen through one index cannot be reused after a global.set through another: they are always loaded.
+	if !forceLoad && index >= c.m.ImportGlobalCount {
 		if v := builder.FindValueInLinearPath(variable); v.Valid() {
 			return v
 		}
